@@ -12,14 +12,16 @@ func init() {
 	oracles["C12"] = oracleC12
 	props["C12"] = &propDef{
 		Level:  "model_checking",
-		Rule:   "reference model = consecutive-unhealthy counter of the current term (reset by a healthy result and by a new term); every health-result sequence over {ok,bad,slow} of length <= L x MaxConsecutiveFailures in {0 (=>3),1,2,3,4} is executed on the real election (one instance, virtual time, continued across terms until re-election) and compared tick by tick: demotion by the health mechanism exactly when the reference count reaches the threshold, OnDemote ran, each Check context expires within 100ms, re-election afterwards. states = distinct reference states (term, count, position, leading), transitions = health ticks executed on the implementation, traces_validated_against_impl = sequences executed",
+		Rule:   "reference model = consecutive-unhealthy counter of the current term (reset by a healthy result and by a new term); every health-result sequence over {ok,bad,slow} of length <= L (and over {ok,bad,healthy-after-150ms} of length <= 4/5) x MaxConsecutiveFailures in {0 (=>3),1,2,3,4} is executed on the real election (one instance, virtual time, continued across terms until re-election) and compared tick by tick: demotion by the health mechanism exactly when the reference count reaches the threshold, OnDemote ran, each Check context expires within 100ms, re-election afterwards. states = distinct reference states (term, count, position, leading), transitions = health ticks executed on the implementation, traces_validated_against_impl = sequences executed",
 		Assume: []string{"single instance, K1 timing (H=200ms, TTL=600ms)", "a slow check returns false at its context deadline"},
 		Plan:   c12Plan,
 		After:  c12After,
 	}
 }
 
-func c12Seqs(maxLen int) [][]string {
+func c12Seqs(maxLen int) [][]string { return c12SeqsOver(maxLen, []string{"ok", "bad", "slow"}) }
+
+func c12SeqsOver(maxLen int, alphabet []string) [][]string {
 	var out [][]string
 	var gen func(cur []string)
 	gen = func(cur []string) {
@@ -29,12 +31,19 @@ func c12Seqs(maxLen int) [][]string {
 		if len(cur) == maxLen {
 			return
 		}
-		for _, r := range []string{"ok", "bad", "slow"} {
+		for _, r := range alphabet {
 			gen(append(cur, r))
 		}
 	}
 	gen(nil)
 	return out
+}
+
+func flenLate(tier string) int {
+	if tier == "thorough" {
+		return 5
+	}
+	return 4
 }
 
 func c12Len(tier string) int {
@@ -60,6 +69,22 @@ func c12Plan(tier string) []PlanItem {
 	var items []PlanItem
 	for _, seq := range c12Seqs(c12Len(tier)) {
 		for _, thr := range []int{0, 1, 2, 3, 4} {
+			items = append(items, PlanItem{c12Scenario(seq, thr), 0})
+		}
+	}
+	// a checker that ignores the deadline of its context and reports healthy after 150 ms:
+	// still a healthy result
+	for _, seq := range c12SeqsOver(flenLate(tier), []string{"bad", "late150", "ok"}) {
+		has := false
+		for _, x := range seq {
+			if x == "late150" {
+				has = true
+			}
+		}
+		if !has {
+			continue
+		}
+		for _, thr := range []int{1, 2, 3} {
 			items = append(items, PlanItem{c12Scenario(seq, thr), 0})
 		}
 	}
